@@ -248,6 +248,32 @@ def pass_rule(run, f, rid):
                 found = True
                 tup = describe_val(cb, du, t["args"][1])
                 okp = tup[0] == "tuple" and len(tup[1]) == 2 and "suspender" in repr(tup[1][0])
+                # ... and it is the very suspender this closure installed as the thread's current one (same local), not
+                # merely something called `suspender`
+                ics = [tt for (_y, tt) in cb.calls() if norm(tt.get("callee") or "").endswith("Suspender::init_current")]
+                if okp and ics:
+                    def ref_root(op):
+                        l = op_local(op)
+                        for _ in range(6):
+                            ds_ = du.defs.get(l, []) if l is not None else []
+                            if len(ds_) == 1 and ds_[0][2] == "assign" and ds_[0][3]["rhs"]["k"] == "ref" and not ds_[0][3]["rhs"]["p"]["proj"]:
+                                return ds_[0][3]["rhs"]["p"]["l"]
+                            if len(ds_) == 1 and ds_[0][2] == "assign" and ds_[0][3]["rhs"]["k"] == "ref" and ds_[0][3]["rhs"]["p"]["proj"] == ["deref"]:
+                                l = ds_[0][3]["rhs"]["p"]["l"]       # a reborrow `&*r`
+                                continue
+                            if len(ds_) == 1 and ds_[0][2] == "assign" and ds_[0][3]["rhs"]["k"] == "use" and ds_[0][3]["rhs"]["a"]["k"] in ("copy", "move") and not ds_[0][3]["rhs"]["a"]["p"]["proj"]:
+                                l = ds_[0][3]["rhs"]["a"]["p"]["l"]
+                                continue
+                            break
+                        return None
+                    args_t = None
+                    for d_ in du.defs.get(op_local(t["args"][1]), []):
+                        if d_[2] == "assign" and d_[3]["rhs"]["k"] == "agg" and d_[3]["rhs"].get("ops"):
+                            args_t = d_[3]["rhs"]["ops"][0]
+                    r1 = ref_root(args_t) if args_t is not None else None
+                    r2 = ref_root(ics[0]["args"][0])
+                    if r1 is None or r2 is None or r1 != r2:
+                        okp = False
                 r = backward(cb, 0, du, through_calls="none")
                 okr = any(y == x for (y, _t) in r.calls) and not r.ops
                 if okp and okr:
